@@ -65,10 +65,31 @@ def _mixin(base):
             self.log = []
             self._in_fill = False
 
+        # --- count handler invocations made by the expect loop (without touching the loop itself)
+        def expect(self, handler, size, *args, **kwargs):
+            if getattr(handler, "_counted", None) is None:
+                inner = handler
+
+                def counted(block, *a, **k):
+                    self._steps = getattr(self, "_steps", 0) + 1
+                    if self._steps > self._step_limit:
+                        raise RuntimeError("watchdog: handler loop does not end")
+                    return inner(block, *a, **k)
+
+                counted._counted = inner
+                handler = counted
+            super().expect(handler, size, *args, **kwargs)
+
+        _step_limit = 5_000_000
+
         # --- callbacks
         def vncConnectionMade(self):
             self.log.append(("Made",))
             super().vncConnectionMade()
+
+        def setImageMode(self):
+            super().setImageMode()
+            self.log.append(("Mode", MODE_ID.get(self.image_mode, -1)))
 
         def vncAuthFailed(self, reason):
             r = reason if isinstance(reason, (bytes, bytearray)) else str(reason).encode("latin-1")
@@ -148,13 +169,13 @@ class RecTransport(StringTransport):
 
 def make_client(cfg: Cfg, tape: list, cls=None):
     if cls is None:
-        cls = {0: RecBase, 1: RecLib, 2: RecCli}[cfg.variant]
+        cls = {0: RecBase, 1: RecLib, 2: RecCli, 3: RecVMware}[cfg.variant]
     c = cls()
     if cfg.variant == 0:
         f = rfb.RFBFactory(password=cfg.password, shared=cfg.shared)
         f.username = cfg.username
     else:
-        f = (vclient.VNCDoToolFactory if cfg.variant == 1 else command.VNCDoCLIFactory)()
+        f = (command.VNCDoCLIFactory if cfg.variant == 2 else vclient.VNCDoToolFactory)()
         f.password, f.username, f.shared = cfg.password, cfg.username, cfg.shared
         f.pseudocursor, f.nocursor, f.pseudodesktop = cfg.pseudocursor, cfg.nocursor, cfg.pseudodesktop
         f.last_rect, f.qemu_extended_key = cfg.last_rect, cfg.qemu
@@ -237,24 +258,37 @@ def run_real(cfg: Cfg, chunks: list[bytes], cls=None):
         final = ("idle", len(c._packet), c._expected_len,
                  (pf.bpp, pf.depth, int(pf.bigendian), int(pf.truecolor), pf.redmax, pf.greenmax, pf.bluemax,
                   pf.redshift, pf.greenshift, pf.blueshift),
-                 MODE_ID.get(getattr(c, "image_mode", "RGBX"), -1), getattr(c, "width", 0), getattr(c, "height", 0),
+                 MODE_ID.get(getattr(c, "image_mode", "RGBX"), -1), getattr(c, "width", -1), getattr(c, "height", -1),
                  getattr(c, "rectangles", 0), bool(getattr(c, "deferred", None)) if cfg.variant != 0 else False)
     screen = None
     if cfg.variant != 0 and getattr(c, "screen", None) is not None:
         screen = (c.screen.size, c.screen.tobytes())
-    return {"events": events, "final": final, "tape": tape, "screen": screen, "client": c}
+    return {"events": events, "final": final, "tape": tape, "screen": screen, "client": c,
+            "steps": getattr(c, "_steps", None)}
 
 
-def model_request(cfg: Cfg, chunks, tape):
+def model_request(cfg: Cfg, chunks, tape, want_screen=False):
     return ("rfb_run", [cfg.to_sx(), [] if cfg.password is None else [cfg.password],
-                        [[] if t is None else [t] for t in tape], cfg.waiter, [bytes(c) for c in chunks]])
+                        [[] if t is None else [t] for t in tape], cfg.waiter, [bytes(c) for c in chunks],
+                        want_screen])
+
+
+def model_screen(ans):
+    if ans == [-3] or len(ans) < 4 or not ans[3]:
+        return None
+    w, h, flat = ans[3]
+    return ((w, h), bytes(flat))
+
+
+def model_steps(ans):
+    return None if ans == [-3] else ans[2]
 
 
 def canon_model(ans):
     """model answer -> (events, final) in the vocabulary of run_real"""
     if ans == [-3]:
         return None, ("model-out-of-fuel",)
-    evs, cl = ans
+    evs, cl = ans[0], ans[1]
     out = []
     for e in evs:
         t = e[0]
@@ -299,6 +333,8 @@ def canon_model(ans):
             out.append(("CutText", bytes(e[1])))
         elif t == 19:
             out.append(("ColorMap", e[1], [tuple(c) for c in e[2]]))
+        elif t == 20:
+            out.append(("Mode", e[1]))
     if cl[0] == 0:
         final = ("initial", cl[1])
     elif cl[0] == 2:
